@@ -27,8 +27,11 @@ class ToolError(Exception):
     pass
 
 
+_T0 = time.time()
+
+
 def log(msg):
-    print(f"[check] {msg}", file=sys.stderr, flush=True)
+    print(f"[check +{time.time() - _T0:5.0f}s] {msg}", file=sys.stderr, flush=True)
 
 
 def tla_set(items):
@@ -104,6 +107,7 @@ def run_tlc(module, consts, invariants=(), name=None, workers=8, timeout=1800, e
         raise ToolError(f"TLC failed on {name} (rc={p.returncode}):\n{tail}")
     states = int(m.group(1)) if m else 0
     distinct = int(m.group(2)) if m else 0
+    log(f"TLC {name}: {distinct} distinct / {states} generated in {wall:.0f}s")
     return dict(out=out, states=states, distinct=distinct, wall_s=round(wall, 1), name=name)
 
 
